@@ -215,3 +215,46 @@ func VH_C14_RackAffinity(M, P, R int) {
 	}
 	vhReach("c14-rackaffinity")
 }
+
+// The leader's side of a rebalance: ConsumerGroup.assignTopicPartitions decodes the members' subscriptions from
+// the join response, reads the partitions of every subscribed topic from the broker (which answers only for the
+// topics it is asked about) and runs the negotiated balancer. Members subscribe to different topics; the leader
+// itself consumes only the first topic.
+func VH_C14_LeaderAssignment(kind int) {
+	protocolName := []string{"range", "roundrobin"}[kind]
+	co := &vhCoordinator{filterTopics: true}
+	for _, t := range []string{"t1", "t2"} {
+		for p := 0; p < 2; p++ {
+			co.parts = append(co.parts, Partition{Topic: t, ID: p})
+		}
+	}
+	cg := &ConsumerGroup{config: ConsumerGroupConfig{ID: "g", Topics: []string{"t1"}, GroupBalancers: []GroupBalancer{RangeGroupBalancer{}, RoundRobinGroupBalancer{}}}}
+	subs := map[string][]string{"leader": {"t1"}, "m2": {"t1", "t2"}, "m3": {"t2"}}
+	join := joinGroupResponse{GroupProtocol: protocolName, LeaderID: "leader", MemberID: "leader"}
+	for _, id := range []string{"leader", "m2", "m3"} {
+		join.Members = append(join.Members, joinGroupResponseMember{MemberID: id, MemberMetadata: groupMetadata{Version: 1, Topics: subs[id]}.bytes()})
+	}
+	as, err := cg.assignTopicPartitions(co, join)
+	vhAssert(err == nil, "leader-assignment-ok")
+	for _, t := range []string{"t1", "t2"} {
+		for p := 0; p < 2; p++ {
+			owners := 0
+			for member, topics := range as {
+				for _, q := range topics[t] {
+					if q == p {
+						owners++
+						subscribed := false
+						for _, s := range subs[member] {
+							if s == t {
+								subscribed = true
+							}
+						}
+						vhAssert(subscribed, "leader-assigns-partitions-only-to-subscribers")
+					}
+				}
+			}
+			vhAssert(owners == 1, "every-partition-of-every-subscribed-topic-has-exactly-one-owner")
+		}
+	}
+	vhReach("c14-leader-assignment")
+}
